@@ -34,6 +34,9 @@ import (
 
 const simChainID = "verif-chain"
 
+// a second denomination some genesis accounts hold: a fee may name any denomination the signer owns
+const simDustDenom = "dust"
+
 // ---------------------------------------------------------------------------------------------
 // vhook module
 
